@@ -1970,7 +1970,56 @@ func c10RootDispatch(c *Ctx, r *Report, clause string) {
 				}
 			}
 			sortStrings(bad)
-			r.Check(len(bad) == 0 && n >= 30, clause, "R4 DECISION-TABLE", key, c.pos(f.Decl.Pos()),
+			// two more rows that need a look at the calls on the path: a `-` starts a number and takes the digits that
+			// follow with it (`%token EOF -1`); the end of the input emits the EOF token (it carries the offset at
+			// which a missing epilogue starts) and ends the lexer
+			for _, row := range []struct {
+				ch       int64
+				name     string
+				mustCall string
+				state    string
+				emit     string
+			}{{'-', "'-'", "acceptRun", "rootState", "Number"}, {eofRune(f), "end of input", "emitEOF", "nil", ""}} {
+				rv := runeValuation(row.ch, tables)
+				sel := selectPaths(paths, rv)
+				if len(sel) == 0 {
+					bad = append(bad, row.name+": no path")
+				}
+				for _, p := range sel {
+					n++
+					called, emitted := false, ""
+					for _, e := range p.Effects {
+						if e.Kind != "call" {
+							continue
+						}
+						if strings.HasSuffix(e.Term.Name, "lexer)."+row.mustCall) {
+							called = true
+						}
+						if strings.HasSuffix(e.Term.Name, "lexer).emit") && len(e.Term.Args) >= 1 {
+							a := e.Term.Args[len(e.Term.Args)-1]
+							if a.Val != nil && a.Val.Kind() == constant.String {
+								emitted = constant.StringVal(a.Val)
+							}
+						}
+					}
+					state := ""
+					if p.Kind == "return" && len(p.Vals) == 1 {
+						state = p.Vals[0].String()
+						if i := strings.LastIndex(state, "."); i >= 0 {
+							state = state[i+1:]
+						}
+					}
+					wantEmit := ""
+					if row.emit != "" {
+						wantEmit = kinds[row.emit]
+					}
+					if !called || state != row.state || emitted != wantEmit {
+						bad = append(bad, fmt.Sprintf("%s → calls %s: %v, state %s, emits %q (expected a call of %s, state %s, emits %q)", row.name, row.mustCall, called, state, emitted, row.mustCall, row.state, wantEmit))
+					}
+				}
+			}
+			sortStrings(bad)
+			r.Check(len(bad) == 0 && n >= 32, clause, "R4 DECISION-TABLE", key, c.pos(f.Decl.Pos()),
 				fmt.Sprintf("%d representative runes: letters and `_` start an identifier, every digit 0–9 starts a number, punctuation emits its own token, the characters %%, $, quote and { hand over to their states, blanks are skipped", n),
 				"the character classes of rootState deviate: "+strings.Join(bad, "; "))
 		}
@@ -2325,4 +2374,14 @@ func firstNextCall(f *FuncRef) ast.Node {
 		return first == nil
 	})
 	return first
+}
+
+// eofRune: the value of the lexer package's `eof` constant (−1 when it cannot be found).
+func eofRune(f *FuncRef) int64 {
+	if c, ok := f.Pkg.Types.Scope().Lookup("eof").(*types.Const); ok {
+		if v, ok := constant.Int64Val(constant.ToInt(c.Val())); ok {
+			return v
+		}
+	}
+	return -1
 }
